@@ -228,7 +228,11 @@ def evaluate(world, drv, plan=None, model_faults=None, oracles=("C01", "C04", "C
     dirs = [hx(d["dir"]) for d in facts["dirs"]]
     skips = legit_skips(world, facts)
     reported = [bool(n) and iexit != 0 for n in named]
-    if obs.get("exc") not in (None, "KeyboardInterrupt", "Crash") and not m.get("crash") and iexit not in (0, None):
+    if plan and plan.get("stderr_fault"):
+        # the program could not report anything: the final state alone is judged (fully trashed or untouched)
+        reported = [False for _ in named]
+        res["tags"].append("stderr-fault")
+    elif obs.get("exc") not in (None, "KeyboardInterrupt", "Crash") and not m.get("crash") and iexit not in (0, None):
         # the run died of an exception nobody caught (a traceback and a failure status): that is a failure report for every
         # argument, whatever the traceback names
         reported = [True for _ in named]
@@ -258,6 +262,9 @@ def evaluate(world, drv, plan=None, model_faults=None, oracles=("C01", "C04", "C
                 seen.add(e)
             items.append({"entry": hx(e) if e is not None else None, "legitSkip": bool(sk), "named": bool(nm)})
         res["oracle"]["C16"] = drv.ask(dict(base, prop="C16", dirs=dirs, items=items, exit=iexit))
+    if "C16" in oracles and obs.get("exc") not in (None, "KeyboardInterrupt", "Crash") and not m.get("crash") and not (plan and (plan.get("stderr_fault") or plan.get("read_faults"))):      # (under an injected probe fault a traceback with a failure status is a crude, but honest, report: C17 judges the state)
+        # a traceback names no argument and tells nothing true about the others
+        res["oracle"]["C16"] = {"ok": False, "verdict": "C16.uncaughtException %s (exit %r)" % (obs.get("exc"), iexit)}
     if "C18" in oracles:
         links = [it for it in facts["items"] if it.get("kind") == "link"]
 
@@ -270,6 +277,8 @@ def evaluate(world, drv, plan=None, model_faults=None, oracles=("C01", "C04", "C
             below = [o["entry"] for o in facts["items"] if o is not it and o.get("entry")] + [d["dir"] for d in facts["dirs"]]
             if any(x == t or x.startswith(t.rstrip(b"/") + b"/") for x in below):
                 return None
+            if any(o is not it and o.get("entry") and (t == o["entry"] or t.startswith(o["entry"].rstrip(b"/") + b"/")) for o in facts["items"]):
+                return None          # the target lies inside another argument (a directory trashed in the same run)
             return t
         if links:
             r = drv.ask(dict(base, prop="C18",
@@ -432,6 +441,26 @@ def evaluate(world, drv, plan=None, model_faults=None, oracles=("C01", "C04", "C
             res["tags"].append("c03w:listed-back")
         res["oracle"]["C03w"] = {"ok": not problems, "verdict": "C03.written-info: " + "; ".join(problems[:2]) if problems else "ok"}
         res["tags"].append("c03w:new-infos:%d" % min(len(dates), 3))
+    if "C07" in oracles and want_states:
+        # "created on demand, private": a trash directory this run creates is 0700 from its first instant - in every state
+        # between two calls, not only in the end (whoever may look meanwhile sees nothing, whatever interrupts leaves it so)
+        made = set()
+        for d in facts["dirs"]:
+            if d["kind"] in ("home", "alt", "custom") or (d["kind"] == "top" and d["parentOk"]):
+                for q in (d["dir"], d["files"], d["info"]):
+                    if q not in before:
+                        made.add(q)
+        bad_ = None
+        for i_, st_ in enumerate(res.get("impl_states", []) + [snap_to_state(obs["after"])]):
+            for q in made:
+                v_ = st_.get(q)
+                if v_ is not None and v_[0] == "d" and v_[2] != 0o700:
+                    bad_ = (i_, q, v_[2])
+                    break
+            if bad_:
+                break
+        res["oracle"]["C07-private"] = {"ok": bad_ is None, "verdict": "ok" if bad_ is None else
+                                        "C07.createdNotPrivate %r has mode %o in state %d of the run" % (bad_[1], bad_[2], bad_[0])}
     if "C08" in oracles:
         roots = [hx(d["dir"]) for d in facts["dirs"] if d["kind"] == "top" and d.get("insecure")]
         if roots:
